@@ -573,6 +573,9 @@ impl<T> Block for NoCopyFileSink<T>""")]),
     dict(name="a1r6+discard-all-forgets-consume", prop="C09", expect="C09.R9:<null_sink::NullSink as block::Block>::work:wait(src)",
          patch="/verif/neutral_seeded/a1-r6/patch.diff", edits=[],
          post_edits=[E("src/null_sink.rs", "    window.consume(everything);", "    let _ = (window, everything);")]),
+    dict(name="m5r4+encoder-waits-for-one-byte", prop="C09", expect="C09.R4:<au::AuEncode as block::Block>::work:need(dst)",
+         patch="/verif/neutral_seeded/m5-r4/patch.diff", edits=[],
+         post_edits=[E("src/au.rs", "            return Ok(BlockRet::WaitForStream(&self.dst, PCM16_BYTES));", "            return Ok(BlockRet::WaitForStream(&self.dst, 1));")]),
     dict(name="m4r5+macro-no-take", prop="C08", expect="C08.R1:",
          patch="/verif/neutral_seeded/m4-r5/patch.diff", edits=[],
          post_edits=[E("rustradio_macros/src/lib.rs", "#zipped_inputs.take(n).enumerate()", "#zipped_inputs.enumerate()")]),
